@@ -77,7 +77,7 @@ Section JLoader.
   Variable flt : option (list particle -> list particle).
 
   (* closing an event: labels are written 1-based *)
-  Definition jclose (st : lstate) : result lstate :=
+  Definition jclose (first : Z) (st : lstate) : result lstate :=
     let old := List.length (data st) in
     let k := List.length (plist st) in
     let d := match flt with Some f => f (data st) | None => data st end in
@@ -85,7 +85,7 @@ Section JLoader.
           | None => Ok (counts st)
           | Some _ =>
             if negb (List.length d =? 0)%nat || (old =? 0)%nat
-            then set_row k (Z.of_nat k + 1, Z.of_nat (List.length d))%Z (counts st)
+            then set_row k (first + Z.of_nat k + 1, Z.of_nat (List.length d))%Z (counts st)
             else if (k <? List.length (counts st))%nat
                  then Ok (dec_labels_from k (delete_row k (counts st)))
                  else Err IndexError
@@ -105,7 +105,7 @@ Section JLoader.
       | [] => Err IndexError
       | l :: t =>
         if has "#" l && has "sigmaGen" l then
-          st' <- jclose st ;; jread sel false m t st'          (* data is not reset here *)
+          st' <- jclose (sel_first sel) st ;; jread sel false m t st'          (* data is not reset here *)
         else if first && negb (has "#" l) && negb (has "weight" l) then Err ValueError
         else if has "Event" l && has "weight" l then
           match nth_error l 2 with
@@ -115,7 +115,7 @@ Section JLoader.
             | None => Err ValueError
             | Some ev =>
               if (to_Z ev =? first_header sel)%Z then jread sel false m t st
-              else st' <- jclose st ;;
+              else st' <- jclose (sel_first sel) st ;;
                    jread sel false m t {| plist := plist st'; data := []; counts := counts st'; cut := cut st' |}
             end
           end
@@ -143,14 +143,12 @@ Section JLoader.
     let nev := Z.of_nat (List.length cnts) in
     ns <- jnum_skip sel cnts ;;
     nr <- jnum_read sel cnts ;;
-    st <- jread sel true (Z.to_nat nr) (skipn (Z.to_nat ns) file) {| plist := []; data := []; counts := cnts; cut := 0 |} ;;
+    st <- jread sel true (Z.to_nat nr) (skipn (Z.to_nat ns) file)
+               {| plist := []; data := []; counts := sel_counts sel cnts; cut := 0 |} ;;
     let nev' := (nev - cut st)%Z in
     fin <- match sel with
            | SelAll => if (Z.of_nat (List.length (plist st)) =? nev')%Z then Ok (nev', counts st, true) else Err IndexError
-           | SelOne k => match nth_error (counts st) (Z.to_nat k) with
-                         | Some c => Ok (1%Z, [c], false)     (* np.array(update): a 1-D array *)
-                         | None => Err IndexError end
-           | SelRange a b => Ok ((b - a + 1)%Z, slice (Z.to_nat a) (Z.to_nat (b - a + 1)) (counts st), true)
+           | _ => Ok (Z.of_nat (List.length (plist st)), counts st, true)
            end ;;
     match first_floats 2 (filter (fun s => negb (s =? "")) lastl) with
     | [s1; s2] =>
